@@ -362,13 +362,13 @@ func checkCase(c Case) evid.Outcome {
 		}
 		wantShort := strings.TrimLeft(expected(d, params, false), "/")
 		wantLong := strings.TrimLeft(expected(d, params, true), "/")
-		decoded := decodedPath(d, q.P)
+		decoded, decided := decodedPath(d, q.P)
 		okShort := strings.TrimLeft(gotURL[0], "/") == wantShort
 		okLong := strings.TrimLeft(gotURL[1], "/") == wantLong
 		if !okShort || !okLong {
 			return evid.Fail("inverse-substitution", "route %q served %q with %s; Context.URLPath gives %q / %q (withOptional), want %q / %q", d.Canon(), q.P, rt.Show(params), gotURL[0], gotURL[1], "/"+wantShort, "/"+wantLong)
 		}
-		if decoded != "" {
+		if decided {
 			if strings.TrimLeft(decoded, "/") != wantShort && strings.TrimLeft(decoded, "/") != wantLong {
 				return evid.Fail("inverse-path", "route %q served %q with %s; rebuilding gives %q or %q, neither is the decoded request path %q", d.Canon(), q.P, rt.Show(params), "/"+wantShort, "/"+wantLong, decoded)
 			}
@@ -386,32 +386,23 @@ func checkCase(c Case) evid.Outcome {
 // values", computed without looking at what the implementation delivered: the
 // reference matcher aligns the path with the route on its own, every captured
 // piece is decoded once (left raw if malformed) and put back into the route.
-// "" = not decided here: a path with escapes under a route with regex segments
-// (an escape could straddle two binds of one segment), or a path the reference
-// does not align with this route.
-func decodedPath(d model.Route, p string) string {
-	hasRegex := false
-	for _, s := range d.Segs {
-		if k, _, _ := s.Classify(); k == model.KRegex {
-			hasRegex = true
-		}
-	}
-	if hasRegex && strings.Contains(p, "%") {
-		return ""
-	}
+// false = not decided here: a path the reference does not align with this
+// route. (The pieces of a regex segment are the submatches of the glued
+// expression, which leftmost-first matching fixes.)
+func decodedPath(d model.Route, p string) (string, bool) {
 	mr, err := model.Compile(d, 0)
 	if err != nil {
-		return ""
+		return "", false
 	}
 	res := model.Match([]model.MRoute{mr}, p, nil, nil)
 	if !res.Found {
-		return ""
+		return "", false
 	}
 	vals := map[string]string{}
 	for k, v := range res.Raw {
 		vals[k] = model.Decode1(v)
 	}
-	return expected(d, vals, res.Form == model.Long)
+	return expected(d, vals, res.Form == model.Long), true
 }
 
 // ---- generator ---------------------------------------------------------------
